@@ -9,6 +9,7 @@ import (
 	"context"
 	"fmt"
 	"math/rand"
+	"strings"
 	"time"
 
 	"google.golang.org/grpc/metadata"
@@ -42,7 +43,7 @@ func init() {
 			out = append(out, c)
 		}
 		for _, pos := range []string{"request", "response-header", "trailer"} {
-			for _, dir := range []string{"forward", "reverse"} {
+			for _, dir := range allDirs {
 				out = append(out, Case{Family: "nonutf8", Seed: rng.Int63(), Cfg: WorldCfg{Dir: dir}, S: map[string]string{"pos": pos}})
 			}
 		}
@@ -288,7 +289,14 @@ func famNonUTF8(w *World, c *Case, rng *rand.Rand) {
 	default:
 	}
 	if bad3 {
-		w.Violate("C03", "tunnel-killed-by-unencodable-metadata:"+pos, "an RPC carrying a non-UTF-8 metadata value (%s position) ended the tunnel / failed the bystander RPC (tunnel err: %v)", pos, w.TCh.Err())
+		// over a carrier that is itself a tunnelled stream the failed send
+		// does not end the carrier, so this is a different failure from the
+		// one over a grpc-go stream and is keyed separately
+		key := "tunnel-killed-by-unencodable-metadata:" + pos
+		if strings.HasPrefix(w.Cfg.Dir, "nested") {
+			key += ":nested-carrier"
+		}
+		w.Violate("C03", key, "an RPC carrying a non-UTF-8 metadata value (%s position, %s) ended the tunnel / failed the bystander RPC (tunnel err: %v)", pos, w.Cfg.Dir, w.TCh.Err())
 	}
 	w.Stat("nonutf8_probes", 1)
 	w.Finish()
